@@ -388,6 +388,22 @@ def trans_rule(ctx, rep, concrete, inv, lockf):
                                "%s() changes the future's state without self._me_lock: a concurrent add_done_callback can see 'not done' and append to a callback list that is about to be / was already dispatched" % q.call_name(e), where_of(e.fn, e.node), trace_of(p, e.seq))
                     if e.d["callee"] is inv and q.recv(e) == ("param", "self"):
                         rep.ob("R-TRANS", "%s[%s]: callbacks dispatched without the future's lock" % (m.qualname, ci.name), not q.has_lock(e, L), "callbacks are dispatched with self._me_lock held", where_of(e.fn, e.node), trace_of(p, e.seq))
+                # every successful stdlib cancel of this future -- on whatever entry point -- releases waiters
+                # (set_running_or_notify_cancel) and dispatches the callbacks, exactly once; a failed one does neither
+                if p.status != "return":
+                    continue
+                SELF_ = ("param", "self")
+                stdc = [e for e in p.calls() if q.is_super_call(e, "cancel") and e.d["callee"] is None and isinstance(e.d["func"][1], tuple) and e.d["func"][1][2] == SELF_]
+                if len(stdc) == 1:
+                    c0 = stdc[0]
+                    succ = q.truth_of(p, q.result_of(c0))
+                    notif = [e for e in p.calls() if e.seq > c0.seq and q.call_name(e) == "set_running_or_notify_cancel" and q.recv(e) == SELF_ and e.d["callee"] is None]
+                    disp = [e for e in p.calls() if e.seq > c0.seq and e.d["callee"] is inv and q.recv(e) == SELF_]
+                    key = "%s[%s]: stdlib cancel" % (m.qualname, ci.name)
+                    if succ is True:
+                        rep.ob("R-TRANS", key + " that succeeded notifies waiters and dispatches callbacks once", len(notif) == 1 and len(disp) == 1, "after a successful cancel: set_running_or_notify_cancel x%d, callback dispatch x%d (waiters in wait()/as_completed() and chained futures are only released by these)" % (len(notif), len(disp)), where_of(c0.fn, c0.node), trace_of(p, c0.seq))
+                    elif succ is False:
+                        rep.ob("R-TRANS", key + " that failed has no further effect", not notif and not disp, "after a failed cancel: set_running_or_notify_cancel x%d, callback dispatch x%d" % (len(notif), len(disp)), where_of(c0.fn, c0.node), trace_of(p, c0.seq))
 
 
 def _same_class_inline(own):
